@@ -293,6 +293,36 @@ func program(c Case) (setup, main string) {
 			fmt.Fprintf(&sb, " *c17-v%d* (c17-f%d 1)", i, i)
 		}
 		sb.WriteString("))")
+	case "late-globals":
+		// M rounds: N routines, released together, each make four functions whose body is a global variable that does
+		// not exist yet (the same four names in every routine); then the variables get their value and every function
+		// is called: all of them must see it (the package's variable table holds one entry per name, whoever made it)
+		rounds := c.M
+		if rounds > 120 {
+			rounds = 120
+		}
+		tagw := "c"
+		if c.N == 1 {
+			tagw = "w"
+		}
+		setup = "(defvar *go* nil) (defvar *done* nil)"
+		sb.WriteString("(progn")
+		for r := 0; r < rounds; r++ {
+			fmt.Fprintf(&sb, " (setq *go* (make-channel 0)) (setq *done* (make-channel %d))", c.N+2)
+			for i := 0; i < c.N; i++ {
+				sb.WriteString(" (run (progn (vt:begin) (channel-pop *go*) (channel-push *done* (list")
+				for k := 0; k < 4; k++ {
+					fmt.Fprintf(&sb, " (lambda () *lg%s-%d-%d*)", tagw, r, k)
+				}
+				sb.WriteString(")) (vt:end)))")
+			}
+			fmt.Fprintf(&sb, " (channel-close *go*) (let ((all nil)) (dotimes (i %d) (setq all (cons (channel-pop *done*) all)))", c.N)
+			for k := 0; k < 4; k++ {
+				fmt.Fprintf(&sb, " (setq *lg%s-%d-%d* 7)", tagw, r, k)
+			}
+			sb.WriteString(" (dolist (fs all) (dolist (f fs) (vt:sink 0 (funcall f)))))")
+		}
+		fmt.Fprintf(&sb, " %d)", rounds)
 	}
 	return setup, sb.String()
 }
@@ -502,6 +532,17 @@ func judge(c Case, scope *slip.Scope, val slip.Object) string {
 					return fmt.Sprintf("the call right after (defmethod ... %d) returned ran version %s", i+1, sx.Text(it))
 				}
 				prev = int64(v)
+			}
+		}
+	case "late-globals":
+		rounds, _ := val.(slip.Fixnum)
+		items := sinks[0]
+		if want := int(rounds) * c.N * 4; len(items) != want {
+			return fmt.Sprintf("%d function results, expected %d", len(items), want)
+		}
+		for _, it := range items {
+			if sx.Text(it) != "7" {
+				return fmt.Sprintf("a function made before its variable existed returned %s after the variable was set to 7", sx.Text(it))
 			}
 		}
 	case "tables":
@@ -774,7 +815,7 @@ func run(c Case) *h.Result {
 
 func gen(rt *rapid.T) Case {
 	c := Case{
-		Template: rapid.SampledFrom([]string{"channels", "mutex", "sync-instance", "tables", "generic", "generic"}).Draw(rt, "template"),
+		Template: rapid.SampledFrom([]string{"channels", "mutex", "sync-instance", "tables", "generic", "generic", "late-globals"}).Draw(rt, "template"),
 		N:        rapid.IntRange(2, 8).Draw(rt, "routines"),
 		M:        rapid.SampledFrom([]int{5, 20, 50, 100, 200}).Draw(rt, "ops"),
 		Cap:      rapid.IntRange(0, 8).Draw(rt, "cap"),
@@ -818,7 +859,7 @@ func TestC17(t *testing.T) {
 		for _, tv := range []struct {
 			t  string
 			vs []int
-		}{{"channels", []int{0, 1}}, {"mutex", []int{0, 1, 2}}, {"sync-instance", []int{0, 1, 2, 4, 6}}, {"tables", []int{0}}, {"generic", []int{0}}} {
+		}{{"channels", []int{0, 1}}, {"mutex", []int{0, 1, 2}}, {"sync-instance", []int{0, 1, 2, 4, 6}}, {"tables", []int{0}}, {"generic", []int{0}}, {"late-globals", []int{0}}} {
 			for _, v := range tv.vs {
 				for _, warm := range []bool{false, true} {
 					c := Case{Template: tv.t, N: 3 + (sh+v)%4, M: 40 + 20*((sh+v)%3), Cap: (sh + v) % 3, Procs: []int{4, 16, 2, 8}[(sh+v)%4], Variant: v, Warm: warm}
